@@ -46,6 +46,9 @@ LEVEL = {
  "C19": ("fault_enumeration", "exhaustive enumeration of engine-call fault points (the n-th call of every engine operation) on the real build / merge paths",
          "for 5 build/merge scenarios the fault-free engine call log is recorded and one run is made per (operation, n): the run must return an error or a segment in which every reference vector is retrievable, must leave no file on a failed merge and must release every native index",
          "trusted base: the fakefaiss stand-in and its fault plan (DESIGN 3.4)", "4 C19"),
+ "C11": ("model_checking", "stateless model checking of the implementation under a controlled scheduler (preemption-bounded DFS over choice sequences at lock / pool / callback points), plus a separate free-running race-detector pass",
+         "all interleavings of 2 (and preemption-bounded interleavings of 3) real reader goroutines over one shared segment, for every pair/triple of a 10-operation menu and every sequential prefix history of length <= 1, are executed on the real code; each call must return its sequential answer, callback bytes must stay stable, no pooled object may have two owners; failing schedules are replayed twice",
+         "scheduling points at synchronisation operations only; data races between them are left to the free-running -race pass (dynamic detection, reported as such)", "4 C11"),
  "C01": ("exploration", "bounded-exhaustive input enumeration on the implementation vs. reference model",
          "every batch of a stated finite alphabet (cell menu per document x field, N<=3; column and chunk-boundary families) x chunk modes x both build tags is built by the real code and its complete term/postings content compared with an independent reference model; exhaustive within the bounds, no sampling",
          "reference model in harness/ref; inputs only inside the alphabet; Go map order not enumerable (semantic oracle)", "4 C01"),
